@@ -364,6 +364,23 @@ qb_ipc_auth_creds(struct ipc_auth_data *data)
 	{
 		struct ucred cred;
 		struct cmsghdr *cmsg;
+#ifdef SO_PEERCRED
+		socklen_t cred_len = sizeof(cred);
+
+		/*
+		 * What the kernel recorded when the peer connected: its
+		 * effective ids.  The credentials that come with a message
+		 * are the real ids of whoever wrote those bytes last.
+		 */
+		if (getsockopt(data->sock, SOL_SOCKET, SO_PEERCRED,
+			       &cred, &cred_len) == 0 &&
+		    cred_len == sizeof(cred)) {
+			data->ugp.pid = cred.pid;
+			data->ugp.uid = cred.uid;
+			data->ugp.gid = cred.gid;
+			return 0;
+		}
+#endif /* SO_PEERCRED */
 
 		res = -EINVAL;
 		for (cmsg = CMSG_FIRSTHDR(&data->msg_recv); cmsg != NULL;
